@@ -173,6 +173,7 @@ func ParseNDStream(r io.Reader, res chan<- Stream, reuse <-chan *ParsedJson) {
 				err = err2
 			}
 
+			verifChunk(tmp)
 			// A chunk can consist of blank lines only; there is nothing to parse in it.
 			if len(bytes.TrimSpace(tmp)) > 0 {
 				result := make(chan Stream, 0)
